@@ -35,19 +35,45 @@ ASSUMPTIONS = ['positions given to or/and_move_to_front are sorted and unique (d
                'the pattern side of the *_match* lemmas is substitution-free (the matcher has no cases for pending substitutions)',
                'a refusal whose message mentions capture is not judged']
 
-K_QUICK, K_THOROUGH = 40, 1200
+K_QUICK, K_THOROUGH = 80, 1200
 PROFILES = ('metavar', 'phi_permuted', 'concrete', 'binder', 'constrained_mv', 'pending_subst', 'notation', 'mixed')
 FLOORS = {'quick': {}, 'thorough': {}}
 for _e in S.ENTRIES:
-    FLOORS['quick']['entry:' + _e.name] = 10
+    FLOORS['quick']['entry:' + _e.name] = 20
     FLOORS['thorough']['entry:' + _e.name] = 200
     if _e.vars or _e.name in ('conjunction_implies_nth', 'or_move_to_front', 'and_move_to_front', 'reduce_n_or_duplicates_at_front', 'merge_clauses'):
-        FLOORS['quick']['entry_nonmv:' + _e.name] = 6
+        FLOORS['quick']['entry_nonmv:' + _e.name] = 12
         FLOORS['thorough']['entry_nonmv:' + _e.name] = 120
-FLOORS['quick'].update({'replayed_ok': 2000, 'nested_compositions': 300, 'inner_calls_checked': 20000, 'thunk_runs_checked': 20000, 'journals_checked': 2000,
-                        'args_omitted_defaults': 50})
+FLOORS['quick'].update({'replayed_ok': 3000, 'nested_compositions': 400, 'inner_calls_checked': 50000, 'thunk_runs_checked': 50000, 'journals_checked': 3000,
+                        'args_omitted_defaults': 100, 'o2_accepts': 200})
 FLOORS['thorough'].update({'replayed_ok': 60000, 'nested_compositions': 9000, 'inner_calls_checked': 600000, 'thunk_runs_checked': 600000, 'journals_checked': 60000,
-                           'args_omitted_defaults': 1500})
+                           'args_omitted_defaults': 1500, 'o2_accepts': 3000})
+
+# Replaying these proofs costs seconds to minutes once the lists have three or more members (millions of primitive calls; the
+# repository's own tests note the same).  Their static conclusions and internal calls are checked on every case; the replay is
+# budgeted by list length.  size(v) -> length that drives the cost.
+HEAVY = {
+    'or_move_to_front': lambda v: len(v.ts) if v.pos and v.pos != list(range(len(v.pos))) else 1,
+    'and_move_to_front': lambda v: len(v.ts) if v.pos and v.pos != list(range(len(v.pos))) else 1,
+    'simplify_clause': lambda v: (len(v.cl) + v.cl.count(v.x) - 1) if (v.x in v.cl and (v.cl[0] != v.x or v.cl.count(v.x) > 1)) else 1,
+    'prove_trivial_clause': lambda v: len(v.cl),
+    'merge_clauses': lambda v: len(v.ls),
+    'reduce_n_or_duplicates_at_front': lambda v: v.n + 1,
+}
+
+
+def replay_share(e, v, quick) -> float:
+    """probability with which a case is replayed"""
+    f = HEAVY.get(e.name)
+    if f is None:
+        return 1.0
+    n = f(v)
+    if n <= 2:
+        return 1.0
+    if n == 3:
+        return 0.25 if quick else 0.5
+    return 0.0 if quick else 0.05
+
 
 PATTERN_OPS = {'evar', 'svar', 'symbol', 'metavar', 'implies', 'app', 'exists', 'mu', 'esubst', 'ssubst', 'instantiate_pattern'}
 RULE_OPS = {'prop1', 'prop2', 'prop3', 'modus_ponens', 'instantiate'}
@@ -80,13 +106,25 @@ def is_capture_refusal(ex) -> bool:
     return isinstance(ex, AssertionError) and 'capture' in str(ex)
 
 
-def culprit_of(ex, default):
-    """innermost table method on the traceback of an exception raised by the library"""
+def culprit_of(ex, default, codes=None):
+    """Root-cause attribution for an exception raised inside the library: the innermost table method on the traceback whose own
+    arguments were of its advertised shape (a lemma that refuses ill-shaped premises is not to blame - its caller is).
+    codes: {code object of the original method: entry}; without it, the innermost table method by name."""
     name = default
-    for fs in traceback.extract_tb(ex.__traceback__):
-        fn = fs.filename.replace('\\', '/')
-        if (fn.endswith('/propositional.py') or fn.endswith('/tautology.py')) and fs.name in S.BY_NAME:
-            name = fs.name
+    t = ex.__traceback__
+    while t is not None:
+        f = t.tb_frame
+        co = f.f_code
+        e = codes.get(co) if codes else None
+        if e is not None:
+            try:
+                names = co.co_varnames[1:co.co_argcount]
+                args = tuple(f.f_locals[n] for n in names)
+                if S.derive_vars(e, args, E) is not None:
+                    name = e.name
+            except Exception:
+                pass
+        t = t.tb_next
     return name
 
 
@@ -242,6 +280,7 @@ class Real:
         self.classes = {'Propositional': self.PRm.Propositional, 'Tautology': self.Tm.Tautology}
         self.st = State()
         self.sigs = {}
+        self.codes = {}
         self._install_lemma_wrappers()
         self._install_thunk_wrapper()
         self.Rec = self._recording_interpreter()
@@ -253,6 +292,7 @@ class Real:
             cls = self.classes[e.cls]
             orig = cls.__dict__[e.name]
             self.sigs[e.name] = inspect.signature(orig)
+            self.codes[orig.__code__] = e
 
             def mk(e, orig):
                 sig = self.sigs[e.name]
@@ -425,6 +465,58 @@ class Case:
             return th, {n: sigma[S.PH0 + i] for i, n in enumerate(e.vars) if S.PH0 + i in sigma}, d.name
         return None
 
+    def o2_check(self, e, mod, th, want, witness, ctx):
+        """serialise (gamma = the module's axioms, claim = the conclusion, proof = the thunk) and run the documented machine O2"""
+        import io
+
+        from ..oracles import refmachine as rm
+        real = self.real
+
+        class Keep(io.BytesIO):
+            data = None
+
+            def close(self):
+                if self.data is None:
+                    self.data = self.getvalue()
+                super().close()
+
+        SI = repo.mod('serializing_interpreter')
+        Claim = repo.mod('claim').Claim
+        g, c, p = Keep(), Keep(), Keep()
+        try:
+            mod2 = real.PF.ProofExp(axioms=mod.get_axioms(), notations=mod.get_notations(), claims=[th.conc], proof_expressions=[th])
+            ser = SI.SerializingInterpreter(phase=real.I.ExecutionPhase.Gamma, claims=[Claim(th.conc)], out=g, claim_out=c, proof_out=p)
+            mod2.execute_full(ser)
+            ser.out.close()
+            ids = dict(ser._symbol_identifiers)
+        except Exception as ex:
+            ctx.count('o2_serialisation_failed')
+            ctx.note('o2_serialisation_failed_example', dict(witness, error=repr(ex)[:200]))
+            return
+        r = rm.run_triple(g.data, c.data, p.data)
+        w = dict(witness, gamma=g.data.hex()[:2000], claim=c.data.hex()[:2000], proof=p.data.hex()[:6000])
+        if r[0] == 'REJECT':
+            cls = r[1]
+            if cls in ('rule', 'underflow', 'type_confusion', 'bad_index', 'claim_mismatch', 'unproved_claims', 'unknown_opcode', 'truncated', 'unsupported'):
+                ctx.violation(f'serialised_lemma_rejected_by_reference_machine:{e.name}:{cls}', f'the serialised proof returned by {e.name} is rejected by the documented machine ({cls}: {r[2]})', w)
+            else:
+                ctx.count('o2_not_judged:' + cls)
+            return
+        m = r[1]
+        ops = {i[0] for i in rm.decode(p.data)}
+        bad = ops - {'EVar', 'SVar', 'Symbol', 'Implies', 'App', 'Mu', 'Exists', 'MetaVar', 'CleanMetaVar', 'ESubst', 'SSubst', 'Prop1', 'Prop2', 'Prop3',
+                     'ModusPonens', 'Instantiate', 'Pop', 'Save', 'Load', 'Publish'}
+        if bad:
+            ctx.violation(f'lemma_uses_disallowed_primitive:{e.name}:{sorted(bad)[0]}', f'the serialised proof returned by {e.name} contains the instruction {sorted(bad)[0]}', w)
+            return
+        want_s = tb.rename_symbols(want, lambda n: ids.get(n, n))
+        got = [tb.norm_py(t) for t in m.journal['discharged']]
+        if got != [want_s]:
+            ctx.violation(f'serialised_lemma_proves_other_claim:{e.name}', f'the documented machine accepts the serialised proof returned by {e.name} but the discharged claim is not the advertised conclusion',
+                          dict(w, expected=tb.pretty(want_s), discharged=[tb.pretty(t) for t in got]))
+            return
+        ctx.count('o2_accepts')
+
     def run(self, e, j):
         """entry e, tuple index j"""
         real, ctx, rng = self.real, self.ctx, self.rng
@@ -465,6 +557,17 @@ class Case:
                    'nested_premise_from': donor[2] if donor else None, 'module': type(mod).__name__}
         ctx.case((e.name, tuple(map(str, desc))), nontrivial=nonmv)
 
+        def decided():
+            ctx.count('entry:' + e.name)
+            if nonmv:
+                ctx.count('entry_nonmv:' + e.name)
+        real_violation = ctx.violation
+
+        def violation(mech, summary, w):
+            decided()
+            real_violation(mech, summary, w)
+        ctx = _CtxView(ctx, violation)
+
         # ---- construction: static conclusion
         st.active = True
         st.inner_budget = 400
@@ -482,7 +585,7 @@ class Case:
                 ctx.count('refused_capture')
                 ctx.count('refused_capture:' + e.name)
                 return
-            who = culprit_of(ex, e.name)
+            who = culprit_of(ex, e.name, real.codes)
             ctx.violation(f'lemma_raises:{who}:{type(ex).__name__}', f'{e.cls}.{e.name} raised {type(ex).__name__} on arguments of the advertised shape (raised inside {who})',
                           dict(witness, error=repr(ex)[:300], expected_conclusion=tb.pretty(want)))
             return
@@ -517,6 +620,11 @@ class Case:
             if top_bad:
                 return
         ctx.count('static_ok')
+        if rng.random() >= replay_share(e, v, self.quick):
+            ctx.count('replay_skipped_by_budget')
+            ctx.count('replay_skipped_by_budget:' + e.name)
+            decided()
+            return
 
         # ---- replay on the recording stateful interpreter
         it = real.Rec(real.I.ExecutionPhase.Gamma)
@@ -534,7 +642,7 @@ class Case:
         depth0 = len(it.stack)
         st.__init__(); st.active = True; st.inner_budget = 0; st.thunk_budget = 400
         try:
-            with watchdog(60 if self.quick else 300):
+            with watchdog(30 if self.quick else 300):
                 proved = th(it)
         except Watchdog:
             st.active = False
@@ -582,14 +690,25 @@ class Case:
         for op in ops & (RULE_OPS | MEM_OPS):
             ctx.count('primitive:' + op)
         ctx.count('replayed_ok')
-        ctx.count('entry:' + e.name)
-        if nonmv:
-            ctx.count('entry_nonmv:' + e.name)
+        decided()
         ctx.count('profile:' + profile)
         if donor:
             ctx.count('nested_compositions')
+        if e.name not in HEAVY and rng.random() < (0.2 if self.quick else 0.1):
+            self.o2_check(e, mod, th, want, witness, ctx)
         if rng.random() < 0.002:
             ctx.sample({'entry': e.name, 'arguments': [str(d)[:120] for d in desc], 'conclusion': tb.pretty(want)[:300], 'primitives': len(it.journal)})
+
+
+class _CtxView:
+    """the shard's journal with `violation` redirected (so that a violated case still counts as an exercised entry)"""
+
+    def __init__(self, ctx, violation):
+        self._ctx = ctx
+        self.violation = violation
+
+    def __getattr__(self, n):
+        return getattr(self._ctx, n)
 
 
 # ------------------------------------------------------------------ workload
